@@ -1017,3 +1017,210 @@ def ensemble_record_agreement(ctx, rid, rels, callee_filter=None, what=""):
                     else:
                         ctx.ok(rid, c, f"{dq} reads {sorted(read)} from `{ps[i]}`: all keys of an ensemble dictionary")
     return n
+
+
+# --------------------------------------------------------------------------------------------
+# the restart tag of a reloaded path is not a branch condition of the run
+# --------------------------------------------------------------------------------------------
+def restart_tag_not_tested(ctx, rid, what=""):
+    """load_paths_from_disk tags every path it reloads at a restart (the tag is read from its
+    source). In the uninterrupted run the same path carries the tag of the move that generated
+    it; for restart equivalence nothing in the move / scheduler code may branch on the restart
+    tag. (The tag of hand-made initial paths is a different, documented exemption.)"""
+    from ..flow import deref, flow_of
+    from ..loader import AnalysisError
+    from ..util import PATH, REPEX, TIS, SCHED
+    tree = ctx.tree
+    f = tree.func(PATH, "load_paths_from_disk")
+    tag = None
+    for n in walk_local(f):
+        if isinstance(n, ast.IfExp) and "restarted_from" in ast.unparse(n.test):
+            isin = isinstance(n.test, ast.Compare) and isinstance(n.test.ops[0], ast.In)
+            v = n.body if isin else n.orelse
+            if isinstance(v, ast.Constant) and isinstance(v.value, str):
+                tag = v.value
+        if isinstance(n, ast.If) and "restarted_from" in ast.unparse(n.test):
+            for st in n.body:
+                if isinstance(st, ast.Assign) and isinstance(st.value, ast.Constant) and isinstance(st.value.value, str):
+                    tag = st.value.value
+    if tag is None:
+        raise AnalysisError(f"{rid}: the tag that load_paths_from_disk gives to paths reloaded at a restart was not found")
+    n_tests = 0
+    for m, q, g in tree.all_funcs([TIS, REPEX, PATH, SCHED]):
+        fl = None
+        for c in [x for x in walk_local(g) if isinstance(x, ast.Compare) and len(x.ops) == 1]:
+            sides = [c.left, c.comparators[0]]
+            movers = []
+            for s_ in sides:
+                e = s_
+                if isinstance(e, ast.Name):
+                    if fl is None:
+                        fl = flow_of(g)
+                    try:
+                        e, _ = deref(fl, e, fl.cfg.node_of(c))
+                    except Exception:
+                        e = s_
+                txt = ast.unparse(e)
+                if (isinstance(e, ast.Call) and last_name(e) == "get_move") or txt.endswith(".generated[0]"):
+                    movers.append(s_)
+            if not movers:
+                continue
+            n_tests += 1
+            consts = set()
+            for s_ in sides:
+                if s_ in movers:
+                    continue
+                for x in ast.walk(s_):
+                    if isinstance(x, ast.Constant) and isinstance(x.value, str):
+                        consts.add(x.value)
+            if tag in consts:
+                ctx.bad(rid, c, f"{q} branches on the tag '{tag}' that load_paths_from_disk gives to paths reloaded at a restart (`{short(c, 60)}`): in the uninterrupted run the same path carries the tag of the move that generated it, so the continued run treats it differently{what}", construct=f"{q}: test of the restart tag: {short(c, 50)}")
+            else:
+                ctx.ok(rid, c, f"{q}: the path's origin tag is compared with {sorted(consts)} - not with the restart tag '{tag}'")
+    return n_tests
+
+
+def path_number_truthiness(ctx, rid, rels, what=""):
+    """Path numbers start at 0 (the initial [0-] path): a path number is compared with None or
+    with other numbers, never tested by truthiness (`if not p.path_number`, `pn or d`)."""
+    from ..flow import deref, flow_of
+    n_uses = 0
+    for m, q, f in ctx.tree.all_funcs(rels):
+        fl = None
+
+        def is_pn(t):
+            nonlocal fl
+            if isinstance(t, ast.Attribute) and t.attr == "path_number":
+                return ast.unparse(t)
+            if isinstance(t, ast.Subscript) and isinstance(t.slice, ast.Constant) and t.slice.value in ("pn_old", "path_number"):
+                return ast.unparse(t)
+            if isinstance(t, ast.Name):
+                if fl is None:
+                    fl = flow_of(f)
+                try:
+                    e2, _ = deref(fl, t, fl.cfg.node_of(t))
+                except Exception:
+                    return None
+                if e2 is not t and isinstance(e2, ast.Attribute) and e2.attr == "path_number":
+                    return t.id
+            return None
+
+        uses = [x for x in walk_local(f) if isinstance(x, ast.Attribute) and x.attr == "path_number" and isinstance(x.ctx, ast.Load)]
+        if not uses:
+            continue
+        n_uses += len(uses)
+        hit = False
+        for x in walk_local(f):
+            tests = []
+            if isinstance(x, ast.BoolOp):
+                tests += x.values if isinstance(x.op, ast.And) or len(x.values) < 2 else x.values
+            if isinstance(x, (ast.If, ast.While, ast.IfExp, ast.Assert)):
+                tests.append(x.test)
+            if isinstance(x, ast.UnaryOp) and isinstance(x.op, ast.Not):
+                tests.append(x.operand)
+            for t in tests:
+                nm = is_pn(t)
+                if nm:
+                    hit = True
+                    ctx.bad(rid, x, f"{q}: the path number `{nm}` is tested by truthiness in `{short(x, 50)}`: path number 0 (the initial [0-] path) is treated like 'no number yet'{what}",
+                            construct=f"truthiness of path number {nm} in {short(x, 50)}")
+        if not hit:
+            ctx.ok(rid, f, f"{q}: path numbers are compared (with None / other numbers), never tested by truthiness")
+    return n_uses
+
+
+def stale_iteration_value(ctx, rid, rels, func_filter=None, what=""):
+    """Per-iteration data is not taken from an earlier iteration. A local that is defined only
+    inside a `for` loop (no definition before the loop, no accumulation `v = f(v)` / `v += ...`)
+    is per-iteration data; a read of it inside the loop must not be reachable from one of its
+    definitions *around the loop head* - i.e. on some path the current iteration defines nothing
+    and the read sees what an earlier iteration left behind."""
+    from ..cfg import cfg_of
+    from ..flow import flow_of
+    n = 0
+    for m, q, f in ctx.tree.all_funcs(rels):
+        if func_filter is not None and not func_filter(q):
+            continue
+        loops = [L for L in walk_local(f) if isinstance(L, ast.For)]
+        if not loops:
+            continue
+        fl = flow_of(f)
+        cfg = fl.cfg
+        params = {a.arg for a in f.args.posonlyargs + f.args.args + f.args.kwonlyargs}
+        for L in loops:
+            inside = {id(x) for x in ast.walk(L)}
+            tvars = {x.id for x in ast.walk(L.target) if isinstance(x, ast.Name)}
+            head = cfg.node_of(L)
+            cands = {}
+            def innermost_loop(node):
+                n_ = getattr(node, "_parent", None)
+                while n_ is not None and n_ is not f:
+                    if isinstance(n_, (ast.For, ast.While)):
+                        return n_
+                    n_ = getattr(n_, "_parent", None)
+                return None
+
+            for d in fl.defs:
+                if d.stmt is None or id(d.stmt) not in inside or "." in d.path or "[" in d.path:
+                    continue
+                if innermost_loop(d.stmt) is not L:
+                    continue  # defined in a nested loop: whether it was defined is a matter of that loop's outcome (correlated guards)
+                cands.setdefault(d.path, []).append(d)
+            for v, defs in sorted(cands.items()):
+                if v in tvars or v in params or v == "_":
+                    continue
+                alld = [d for d in fl.defs if d.path == v]
+                if any(d.stmt is None or id(d.stmt) not in inside for d in alld):
+                    continue  # also defined outside the loop: carried state, not per-iteration data
+                if any(d.kind == "aug" for d in alld):
+                    continue
+                if any(d.value is not None and isinstance(d.value, ast.AST) and any(isinstance(x, ast.Name) and x.id == v for x in ast.walk(d.value)) for d in alld):
+                    continue  # v = f(v): accumulation
+                # nested loops that define v as their own target are handled at that loop
+                if any(isinstance(x, ast.For) and x is not L and v in {y.id for y in ast.walk(x.target) if isinstance(y, ast.Name)} for x in ast.walk(L)):
+                    continue
+                reads = [x for x in ast.walk(L) if isinstance(x, ast.Name) and x.id == v and isinstance(x.ctx, ast.Load)]
+                if not reads:
+                    continue
+                n += 1
+                dnodes = [d.at for d in defs if d.at is not None]
+                bad = None
+                for r in reads:
+                    try:
+                        rn = cfg.node_of(r)
+                    except Exception:
+                        continue
+                    # can the read be reached from the loop head without passing a definition of v?
+                    if cfg.reaches(head, rn, avoid=dnodes, labels_excluded=("exc",)) and rn.id != head.id:
+                        # ... and is there an earlier-iteration definition that can flow around?
+                        if any(cfg.reaches(dn, head, labels_excluded=("exc",)) for dn in dnodes):
+                            bad = r
+                            break
+                if bad is None:
+                    ctx.ok(rid, defs[0].stmt, f"{q}: `{v}` is (re)defined in every iteration before it is read")
+                else:
+                    st = bad
+                    while st is not None and not isinstance(st, ast.stmt):
+                        st = getattr(st, "_parent", None)
+                    ctx.bad(rid, st if st is not None else bad, f"{q}: `{v}` is defined only on some paths of the loop over `{short(L.iter, 30)}` but read in `{short(st, 50)}` on all of them: when the current iteration does not define it, the read sees the value an earlier iteration left behind{what}", construct=f"{q}: stale `{v}` in {short(st, 50)}")
+    return n
+
+
+def commit_every_step(ctx, rid, what=""):
+    """Every completed step is committed: each normal path through treat_output passes
+    write_toml() (the restart file is refreshed at every step, whatever the output settings)."""
+    from ..cfg import cfg_of
+    from ..loader import AnalysisError
+    from ..util import REPEX
+    f = ctx.tree.func(REPEX, "REPEX_state.treat_output")
+    cfg = cfg_of(f)
+    commits = [c for c in walk_local(f) if isinstance(c, ast.Call) and isinstance(c.func, ast.Attribute) and c.func.attr == "write_toml"]
+    if not commits:
+        ctx.bad(rid, f, "treat_output never writes restart.toml" + what, construct="treat_output without write_toml")
+        return
+    cn = [cfg.node_of(c) for c in commits]
+    if cfg.reaches(cfg.entry, cfg.exit, avoid=cn, labels_excluded=("exc",)):
+        guards = sorted({short(e, 40) for c in cn for e, t, _ in cfg.guards(c)})
+        ctx.bad(rid, commits[0], f"treat_output can complete a step without writing restart.toml (the commit is conditional on {guards}): path files and the data file then run ahead of the restart file, and a crash followed by a restart replays steps - rows are appended twice, path numbers reused, jobs re-issued from a stale step{what}", construct="treat_output: conditional write_toml")
+    else:
+        ctx.ok(rid, commits[0], "every normal path through treat_output writes restart.toml")
